@@ -38,7 +38,7 @@ CHECKS = {
     "C08": ("hx", "model_checking",
             "bounded exhaustive exploration of histories on a BlobTree with a standard-tree twin, the reference map and pointer resolution",
             "The same history is run on a key-value-separated tree and replayed on a standard tree; get/contains_key/size_of/scans/len/guard sizes must be identical at MAX, the visible seqno and every held snapshot, both must equal the model, and every Indirection entry of every table of every version in the history must resolve through that version's blob files to the bytes written for that (key, seqno). Configurations: thresholds 1/16/1000 x blob file target 1/64MiB x staleness 0/0.25/1 x age cutoff 0.25/1.",
-            "7 C08", HX_NOTE + " Blob compression: none (lz4 is not in the feature set the suite is built with)."),
+            "7 C08", HX_NOTE + " Blob/data/index compression none and lz4 (one relocating scenario each)."),
     "C09": ("hx", "model_checking",
             "bounded exhaustive exploration of histories on a BlobTree with recomputation of garbage from a pointer scan",
             "After every step the pointers of all tables are scanned: per blob file gc_stats (len, bytes, on_disk_bytes) must equal item_count/total bytes minus what is still pointed to, stale_blob_bytes must be their sum, each table's linked_blob_files must equal its own pointers, no pointed-to file may be missing from the version or the disk, a file that was dead before a merge commit (or a drop that removed tables) must be gone after it, and the statistics must be unchanged across reopen.",
@@ -49,11 +49,11 @@ CHECKS = {
             "6.3, 7 C10", "Trusted base: the worker protocol, the pristine baseline computed by the same workload code. One corruption per mutant."),
     "C11": ("cfgmc", "model_checking",
             "exhaustive enumeration of the physical-configuration product x fixed histories on the real tree, differential against the default configuration and the reference map",
-            "Six layout-rich histories (two L0 tables with snapshots, levels + sealed memtables, ingestion + reopen, blob overwrites with relocation, two bulk histories of 400/700 keys) are run under every configuration of block size x restart interval x hash ratio x index/filter partitioning x index/filter pinning x filter policy x expect_point_read_hits x cache capacity x descriptor table (quick: Hamming distance <= 3 from the default, thorough: the full product of 10368); every answer must equal the model and the default-configuration run, cold and warm; two and three trees with coinciding table ids share one cache (0 / 4 KiB / 16 MiB) and descriptor table (none / 1 / 256) with interleaved reads, and a second handle is opened on a live directory.",
-            "7 C11", HX_NOTE + " Compression fixed to none."),
+            "Six layout-rich histories (two L0 tables with snapshots, levels + sealed memtables, ingestion + reopen, blob overwrites with relocation, two bulk histories of 400/700 keys) are run under every configuration of block size x restart interval x hash ratio x index/filter partitioning x index/filter pinning x filter policy x expect_point_read_hits x cache capacity x descriptor table x compression none/lz4 (quick: Hamming distance <= 3 from the default, thorough: the full product of 20736); every answer must equal the model and the default-configuration run, cold and warm; two and three trees with coinciding table ids share one cache (0 / 4 KiB / 16 MiB) and descriptor table (none / 1 / 256) with interleaved reads, and a second handle is opened on a live directory.",
+            "7 C11", HX_NOTE + " The engine builds the crate with its optional lz4 feature so that compression none/lz4 is one of the dimensions."),
     "C12": ("tablemc", "model_checking",
-            "bounded exhaustive enumeration of item streams x 216 writer settings x recover variants x probes on the real table::Writer / Table",
-            "Every strictly ordered stream of up to 3 entries over a 3x3 key/seqno grid with all four value types and three value-size patterns (quick: up to 2 plus a slice of 3), 4-5 entry two-key streams and an adversarial family are written under every combination of block size, restart interval, hash ratio, index/filter partitioning and partition size, recovered pinned/unpinned with global seqno 0/7 and with/without descriptor table, and read back through metadata, scan, iter (both directions), every bound pair under every next/next_back interleaving and get for every key x seqno.",
+            "bounded exhaustive enumeration of item streams x 324 writer settings x recover variants x probes on the real table::Writer / Table",
+            "Every strictly ordered stream of up to 3 entries over a 3x3 key/seqno grid with all four value types and three value-size patterns (quick: up to 2 plus a slice of 3), 4-5 entry two-key streams and an adversarial family are written under every combination of block size, restart interval, hash ratio, index/filter partitioning, partition size and block compression none/lz4, recovered pinned/unpinned with global seqno 0/7 and with/without descriptor table, and read back through metadata, scan, iter (both directions), every bound pair under every next/next_back interleaving and get for every key x seqno.",
             "7 C12", "Trusted base: the stream itself is the specification; harness; bounded stream length."),
     "C13": ("hx", "model_checking",
             "bounded exhaustive exploration of single-delete-disciplined histories vs model with weak delete read as delete",
